@@ -292,14 +292,13 @@ pub fn run_case(bins: &Binaries, case: &Case, reference: &[(String, Vec<u8>)], i
             }
         }
         let verdicts: Vec<bool> = lines.iter().filter_map(|l| if l.starts_with("> Success!") { Some(true) } else if l.starts_with("> Failure!") { Some(false) } else { None }).collect();
-        match verdicts.as_slice() {
-            [] => v.push(mk("I5-no-verdict", "no verdict line".into())),
-            [s] => {
-                if *s != all_proven {
-                    v.push(mk(if *s { "I5-false-success" } else { "I5-false-failure" }, format!("verdict success={s} but all-proven={all_proven} (real processes, stand-in prover)")));
-                }
-            }
-            _ => v.push(mk("I5-many-verdicts", "more than one verdict line".into())),
+        if verdicts.is_empty() {
+            v.push(mk("I5-no-verdict", "no verdict line".into()));
+        } else if verdicts.iter().any(|s| *s != verdicts[0]) {
+            v.push(mk("I5-contradictory-verdicts", "verdict lines that do not agree".into()));
+        } else if verdicts[0] != all_proven {
+            let s = verdicts[0];
+            v.push(mk(if s { "I5-false-success" } else { "I5-false-failure" }, format!("verdict success={s} but all-proven={all_proven} (real processes, stand-in prover)")));
         }
     }
     let verdict = lines.iter().find_map(|l| if l.starts_with("> Success!") { Some(true) } else if l.starts_with("> Failure!") { Some(false) } else { None });
